@@ -100,12 +100,16 @@ Encode(c) ==
                           presence |-> BM({j - 1 : j \in tailJ}, Len(leafs), "r64"),
                           position |-> BM({CumPos([x \in 1..Len(tailSeq) |-> Len(tails[tailSeq[x]])])[y] : y \in 1..(Len(tailSeq) + 1)}, 0, "s32"),
                           bytes |-> FlattenSeq([x \in 1..Len(tailSeq) |-> tails[tailSeq[x]]])],
-      leaves    |-> IF ~c.hasvals THEN [present |-> FALSE]
+      \* newVLenArray: absent when every encoded value is empty; otherwise a presence
+      \* bitmap of the NON-EMPTY elements, and either one fixed size (all non-empty
+      \* elements equally long) or a positional bitmap over all elements
+      leaves    |-> IF ~c.hasvals \/ \A j \in 1..Len(leafs) : Len(lvals[j]) = 0 THEN [present |-> FALSE]
                     ELSE LET sizes == [j \in 1..Len(leafs) |-> Len(lvals[j])]
-                             alleq == \A a, b \in 1..Len(leafs) : sizes[a] = sizes[b] IN
-                         [present |-> TRUE, n |-> Len(leafs), eltcnt |-> Len(leafs),
-                          presence |-> BM({j - 1 : j \in 1..Len(leafs)}, Len(leafs), "r64"),
-                          fixed |-> IF alleq THEN sizes[1] ELSE 0,
+                             J     == {j \in 1..Len(leafs) : sizes[j] > 0}
+                             alleq == \A a, b \in J : sizes[a] = sizes[b] IN
+                         [present |-> TRUE, n |-> Len(leafs), eltcnt |-> Cardinality(J),
+                          presence |-> BM({j - 1 : j \in J}, Len(leafs), "r64"),
+                          fixed |-> IF alleq THEN sizes[CHOOSE j \in J : TRUE] ELSE 0,
                           position |-> IF alleq THEN [bits |-> {}, nwords |-> -1, rank |-> <<>>, sel |-> <<>>]
                                        ELSE BM({CumPos(sizes)[y] : y \in 1..(Len(leafs) + 1)}, 0, "s32"),
                           bytes |-> FlattenSeq(lvals)]]
